@@ -15,6 +15,11 @@ import copy
 
 from .termform import subst
 
+# leading parameters of the library functions that kafe2 calls with a mix of positional and keyword arguments (numpy / scipy documentation)
+EXTERNAL_SIGS = {
+    "opt.minimize": ["fun", "x0"], "integrate.quad": ["func", "a", "b"], "np.append": ["arr", "values"], "np.insert": ["arr", "obj", "values"],
+}
+
 PURE_CALLS = {"len", "list", "dict", "tuple", "set", "float", "int", "str", "bool", "zip", "enumerate", "range", "isinstance", "getattr", "sorted", "sum", "min", "max", "abs",
               "hasattr", "type", "id", "repr", "round", "any", "all", "reversed", "iter", "slice", "frozenset"}
 
@@ -351,8 +356,8 @@ class Canon:
             return None
         if any(isinstance(x, (ast.Yield, ast.YieldFrom, ast.Await, ast.Global, ast.Nonlocal)) for x in ast.walk(h.node)):
             return None
-        n_stmts = sum(1 for x in ast.walk(h.node) if isinstance(x, ast.stmt)) - 1
-        if self._refs.get(name, 0) > 1 and n_stmts > (8 if self._refs.get(name, 0) == 2 else 5):
+        n_stmts = sum(1 for b in _strip_doc(h.node.body) for x in ast.walk(b) if isinstance(x, ast.stmt))   # (the docstring does not count)
+        if self._refs.get(name, 0) > 1 and n_stmts > (10 if self._refs.get(name, 0) == 2 else 3):
             return None  # a helper shared by several callers is only written out when it is small
         return h
 
@@ -360,6 +365,9 @@ class Canon:
         """parameter names (without self) of the callee of `call` if it can be determined, else None"""
         self._index()
         fn = call.func
+        ext = EXTERNAL_SIGS.get(txt(fn))
+        if ext is not None:
+            return list(ext), []
         cands = None
         if isinstance(fn, ast.Attribute) and isinstance(fn.value, ast.Name) and fn.value.id in ("self", "cls") and f.cls is not None:
             m = f.cls.find_method(fn.attr)
@@ -565,7 +573,7 @@ class Canon:
                     return n
                 ps, kwo = sig
                 given = {k.arg: k.value for k in n.keywords}
-                if not set(given) <= set(ps) | set(kwo):
+                if not set(given) <= set(ps) | set(kwo) and txt(n.func) not in EXTERNAL_SIGS:
                     n.keywords = sorted(n.keywords, key=lambda k: k.arg)
                     return n
                 args = list(n.args)
@@ -575,7 +583,7 @@ class Canon:
                     i += 1
                 order = {name: j for j, name in enumerate(ps + kwo)}
                 n.args = args
-                n.keywords = [ast.keyword(arg=k, value=v) for k, v in sorted(given.items(), key=lambda kv: order.get(kv[0], 999))]
+                n.keywords = [ast.keyword(arg=k, value=v) for k, v in sorted(given.items(), key=lambda kv: (order.get(kv[0], 999), kv[0]))]
                 return n
 
         return T().visit(node)
